@@ -10,8 +10,11 @@
   with the k-th response and nothing else (`c03_kth_with_kth`, `c03_one_item_per_exchange`);
   a header line and a length-delimited body are read back exactly with reading resuming right
   after them (`takeLine_exact`, `body_by_length_exact`); header names are reported in one
-  canonical spelling (`canonicalName_idem`).  Partial: the round trip of whole messages
-  (`parseRequest (enc m ++ rest)`) is checked on every generated case, not proved.
+  canonical spelling (`canonicalName_idem`).
+  The wire grammar inverts the reference encoder: header blocks (`parseHeaders_enc`), decimal
+  lengths (`decNat_dec`), chunked bodies of any bytes (`parseChunks_enc`), whole requests and
+  responses with every framing (`c03_request_enc`, `c03_response_enc`), and a whole pipelined
+  client half (`c03_client_half`).
 -/
 import KsVerif.Http.H1
 
@@ -111,5 +114,534 @@ theorem canonicalName_idem (n : Bytes) : canonicalName (canonicalName n) = canon
 
 /-- Non-vacuity. -/
 example : canonicalName (bytesOfString "x-cUSTOM-id") = bytesOfString "X-Custom-Id" := by decide
+
+/-! ### whole messages: the wire grammar inverts the reference encoder -/
+
+open Wire Spec
+
+def noByte (x : UInt8) (l : Bytes) : Prop := ∀ b ∈ l, b ≠ x
+
+/-- a header field as the encoder writes it: no colon / CR in the name, no CR in the value, no
+    optional whitespace around the value -/
+def wfHeader (h : Bytes × Bytes) : Prop :=
+  noByte 58 h.1 ∧ noByte 13 h.1 ∧ noByte 13 h.2 ∧ trimOWS h.2 = h.2
+
+def encHeaders (hs : List (Bytes × Bytes)) : Bytes :=
+  (hs.map fun (n, v) => n ++ bytesOfString ": " ++ v ++ crlf).flatten
+
+theorem takeWhile_stop (x : UInt8) (a b : Bytes) (h : noByte x a) :
+    (a ++ x :: b).takeWhile (· != x) = a ∧ (a ++ x :: b).dropWhile (· != x) = x :: b := by
+  induction a with
+  | nil => simp
+  | cons c t ih =>
+    have hc : c ≠ x := h c (by simp)
+    have := ih (fun y hy => h y (by simp [hy]))
+    simp [List.takeWhile_cons, List.dropWhile_cons, hc, this]
+
+theorem trimOWS_space (v : Bytes) : trimOWS (32 :: v) = trimOWS v := by
+  simp [trimOWS, List.dropWhile_cons]
+
+/-- **Header blocks round-trip.** -/
+theorem parseHeaders_enc : ∀ (hs : List (Bytes × Bytes)), (∀ h ∈ hs, wfHeader h) → ∀ (rest : Bytes) (fuel : Nat),
+    hs.length < fuel → parseHeaders fuel (encHeaders hs ++ crlf ++ rest) = some (hs, rest)
+  | [], _, rest, fuel, hf => by
+    cases fuel with
+    | zero => omega
+    | succ f =>
+      have := takeLine_exact [] rest (by simp)
+      simp only [List.nil_append, List.cons_append] at this
+      simp [parseHeaders, encHeaders, crlf, this]
+  | (n, v) :: hs, hw, rest, fuel, hf => by
+    cases fuel with
+    | zero => omega
+    | succ f =>
+      obtain ⟨h58, h13n, h13v, htrim⟩ := hw (n, v) (by simp)
+      let line := n ++ bytesOfString ": " ++ v
+      have hline13 : ∀ b ∈ line, b ≠ 13 := by
+        intro b hb
+        simp only [line, List.mem_append] at hb
+        rcases hb with (hb | hb) | hb
+        · exact h13n b hb
+        · have : b = 58 ∨ b = 32 := by simpa [bytesOfString] using hb
+          rcases this with rfl | rfl <;> decide
+        · exact h13v b hb
+      have htl := takeLine_exact line (encHeaders hs ++ crlf ++ rest) hline13
+      have henc : encHeaders ((n, v) :: hs) ++ crlf ++ rest = line ++ [13, 10] ++ (encHeaders hs ++ crlf ++ rest) := by
+        simp [encHeaders, line, crlf, List.append_assoc]
+      have ih := parseHeaders_enc hs (fun h hh => hw h (by simp [hh])) rest f (by simp only [List.length_cons] at hf; omega)
+      have hsplit := takeWhile_stop 58 n (32 :: v) h58
+      have hlineform : line = n ++ 58 :: 32 :: v := by simp [line, bytesOfString, List.append_assoc]
+      have hne : line.isEmpty = false := by rw [hlineform]; cases n <;> simp
+      have hlen : ¬ (n.length = line.length) := by rw [hlineform]; simp
+      rw [henc]
+      simp only [parseHeaders, htl, hne, Bool.false_eq_true, if_false]
+      rw [hlineform, hsplit.1, hsplit.2]
+      have hlen' : ¬ (n.length == (n ++ 58 :: 32 :: v).length) = true := by simp
+      simp only [hlen', if_false, List.drop_succ_cons, List.drop_zero, trimOWS_space, htrim, ih, Option.map_some]
+      simp
+
+/-! decimal and hexadecimal lengths -/
+
+def byteOfChar (c : Char) : UInt8 := c.toNat.toUInt8
+
+theorem dec_eq (n : Nat) : dec n = (Nat.toDigits 10 n).map byteOfChar := by
+  simp [dec, bytesOfString, Nat.toList_repr, byteOfChar]
+
+theorem digit_byte (c : Char) (h : c.isDigit = true) : (byteOfChar c).toNat = c.toNat ∧ 48 ≤ c.toNat ∧ c.toNat ≤ 57 := by
+  have h' : 48 ≤ c.toNat ∧ c.toNat ≤ 57 := by
+    simp only [Char.isDigit, Bool.and_eq_true, decide_eq_true_eq] at h
+    exact ⟨by simpa [UInt32.le_iff_toNat_le] using h.1, by simpa [UInt32.le_iff_toNat_le] using h.2⟩
+  refine ⟨?_, h'⟩
+  unfold byteOfChar
+  simp only [Nat.toUInt8_eq, UInt8.toNat_ofNat']
+  omega
+
+theorem fold_digits (cs : List Char) (h : ∀ c ∈ cs, c.isDigit = true) : ∀ acc : Nat,
+    (cs.map byteOfChar).foldl (fun acc x => acc * 10 + (x.toNat - 48)) acc = Nat.ofDigitChars 10 cs acc := by
+  induction cs with
+  | nil => intro acc; simp
+  | cons c cs ih =>
+    intro acc
+    obtain ⟨h1, _, _⟩ := digit_byte c (h c (by simp))
+    simp only [List.map_cons, List.foldl_cons, Nat.ofDigitChars_cons, h1]
+    rw [ih (fun x hx => h x (by simp [hx]))]
+    congr 1
+    rw [Nat.mul_comm]; rfl
+
+theorem all_digits (cs : List Char) (h : ∀ c ∈ cs, c.isDigit = true) :
+    (cs.map byteOfChar).all (fun x => 48 ≤ x && x ≤ 57) = true := by
+  simp only [List.all_eq_true, List.mem_map, Bool.and_eq_true, decide_eq_true_eq]
+  rintro x ⟨c, hc, rfl⟩
+  obtain ⟨h1, h2, h3⟩ := digit_byte c (h c hc)
+  constructor <;> (rw [UInt8.le_iff_toNat_le, h1]; simpa using ‹_›)
+
+/-- **Decimal numbers round-trip** (Content-Length, status codes). -/
+theorem decNat_dec (n : Nat) : decNat? (dec n) = some n := by
+  have hd : ∀ c ∈ Nat.toDigits 10 n, c.isDigit = true := fun _ hc => Nat.isDigit_of_mem_toDigits (by decide) (by decide) hc
+  unfold decNat?
+  rw [dec_eq]
+  have hne : ((Nat.toDigits 10 n).map byteOfChar).isEmpty = false := by
+    simp [Nat.toDigits_ne_nil]
+  simp only [hne, all_digits _ hd, Bool.not_true, Bool.or_false, Bool.false_eq_true, if_false]
+  rw [fold_digits _ hd 0, Nat.ofDigitChars_ten_toDigits]
+
+theorem dec_noByte (n : Nat) (x : UInt8) (hx : x < 48 ∨ 57 < x) : noByte x (dec n) := by
+  intro b hb
+  rw [dec_eq] at hb
+  simp only [List.mem_map] at hb
+  obtain ⟨c, hc, rfl⟩ := hb
+  obtain ⟨h1, h2, h3⟩ := digit_byte c (Nat.isDigit_of_mem_toDigits (by decide) (by decide) hc)
+  intro he
+  have : x.toNat = c.toNat := by rw [← he, h1]
+  rcases hx with hx | hx
+  · have := UInt8.lt_iff_toNat_lt.mp hx; simp at this; omega
+  · have := UInt8.lt_iff_toNat_lt.mp hx; simp at this; omega
+
+theorem hex_small (n : Nat) (h : n ≤ 7) : hex n = [(48 + n).toUInt8] := by
+  have : n = 0 ∨ n = 1 ∨ n = 2 ∨ n = 3 ∨ n = 4 ∨ n = 5 ∨ n = 6 ∨ n = 7 := by omega
+  rcases this with rfl | rfl | rfl | rfl | rfl | rfl | rfl | rfl <;> rfl
+
+theorem hexNat_small (n : Nat) (h : n ≤ 7) : hexNat? (((48 + n).toUInt8 :: ([] : Bytes)).takeWhile (· != 59)) = some n := by
+  have : n = 0 ∨ n = 1 ∨ n = 2 ∨ n = 3 ∨ n = 4 ∨ n = 5 ∨ n = 6 ∨ n = 7 := by omega
+  rcases this with rfl | rfl | rfl | rfl | rfl | rfl | rfl | rfl <;> rfl
+
+/-- **Chunked bodies round-trip**: any body, cut into chunks, followed by the last chunk and an
+    empty trailer, is read back exactly, and reading resumes right after it. -/
+theorem parseChunks_enc : ∀ (fuel : Nat) (b : Bytes), b.length < fuel → ∀ (rest : Bytes) (pf : Nat), b.length < pf →
+    parseChunks pf (chunksOf fuel b ++ rest) = some (b, rest)
+  | 0, _, h, _, _, _ => by omega
+  | fuel + 1, b, hf, rest, pf, hpf => by
+    cases pf with
+    | zero => omega
+    | succ pf' =>
+      by_cases hb : b = []
+      · subst hb
+        have h1 := takeLine_exact (bytesOfString "0") (crlf ++ rest) (by decide)
+        have h2 := parseHeaders_enc [] (by simp) rest ((crlf ++ rest).length + 1) (by simp)
+        simp only [encHeaders, List.map_nil, List.flatten_nil, List.nil_append] at h2
+        simp only [chunksOf, List.isEmpty_nil, if_true, List.append_assoc, crlf] at h1 ⊢
+        simp only [parseChunks, h1]
+        have : hexNat? ((bytesOfString "0").takeWhile (· != 59)) = some 0 := by rfl
+        simp only [this, crlf] at h2 ⊢
+        simp only [List.cons_append, List.nil_append] at h2 ⊢
+        rw [h2]; rfl
+      · have hne : b.isEmpty = false := by cases b <;> simp_all
+        have hlen : 0 < b.length := by cases b <;> simp_all
+        let n := min 7 b.length
+        have hn7 : n ≤ 7 := Nat.min_le_left _ _
+        have hnb : n ≤ b.length := Nat.min_le_right _ _
+        have hn0 : 0 < n := by simp only [n]; omega
+        have hline := takeLine_exact (hex n) (b.take n ++ crlf ++ chunksOf fuel (b.drop n) ++ rest) (by
+          rw [hex_small n hn7]; intro x hx; simp at hx; subst hx
+          have : n = 1 ∨ n = 2 ∨ n = 3 ∨ n = 4 ∨ n = 5 ∨ n = 6 ∨ n = 7 := by omega
+          rcases this with h | h | h | h | h | h | h <;> rw [h] <;> decide)
+        have ih := parseChunks_enc fuel (b.drop n) (by simp only [List.length_drop]; omega) rest pf'
+          (by simp only [List.length_drop]; omega)
+        have hform : chunksOf (fuel + 1) b ++ rest =
+            hex n ++ [13, 10] ++ (b.take n ++ crlf ++ chunksOf fuel (b.drop n) ++ rest) := by
+          simp [chunksOf, hne, n, crlf, List.append_assoc]
+        rw [hform]
+        simp only [parseChunks, hline]
+        rw [hex_small n hn7, hexNat_small n hn7]
+        cases hnn : n with
+        | zero => omega
+        | succ m =>
+          simp only
+          rw [← hnn]
+          have hlen2 : ¬ ((b.take n ++ crlf ++ chunksOf fuel (b.drop n) ++ rest).length < n + 2) := by
+            simp only [List.length_append, List.length_take, crlf, List.length_cons, List.length_nil]; omega
+          simp only [hlen2, if_false]
+          have htake : (b.take n ++ crlf ++ chunksOf fuel (b.drop n) ++ rest).take n = b.take n := by
+            simp [List.append_assoc, List.take_append_of_le_length, List.length_take, Nat.min_eq_left hnb]
+          have hdrop : (b.take n ++ crlf ++ chunksOf fuel (b.drop n) ++ rest).drop n =
+              13 :: 10 :: (chunksOf fuel (b.drop n) ++ rest) := by
+            simp [List.append_assoc, crlf, List.drop_append, List.length_take, Nat.min_eq_left hnb]
+          rw [htake, hdrop]
+          simp only [ih, Option.map_some, List.take_append_drop]
+
+/-! start lines -/
+
+theorem splitOnByte_ne_nil (sep : UInt8) (b : Bytes) : ∃ cur more, splitOnByte sep b = cur :: more := by
+  induction b with
+  | nil => exact ⟨[], [], rfl⟩
+  | cons x t ih =>
+    obtain ⟨cur, more, h⟩ := ih
+    simp only [splitOnByte, List.foldr_cons] at h ⊢
+    rw [h]
+    by_cases hx : x = sep <;> simp [hx]
+
+theorem splitOnByte_single (sep : UInt8) (a : Bytes) (h : noByte sep a) : splitOnByte sep a = [a] := by
+  induction a with
+  | nil => rfl
+  | cons c t ih =>
+    have hc : c ≠ sep := h c (by simp)
+    have := ih (fun y hy => h y (by simp [hy]))
+    simp only [splitOnByte, List.foldr_cons] at this ⊢
+    rw [this]; simp [hc]
+
+theorem splitOnByte_cons (sep : UInt8) (a b : Bytes) (h : noByte sep a) :
+    splitOnByte sep (a ++ sep :: b) = a :: splitOnByte sep b := by
+  induction a with
+  | nil =>
+    obtain ⟨cur, more, hb⟩ := splitOnByte_ne_nil sep b
+    simp only [List.nil_append, splitOnByte, List.foldr_cons] at hb ⊢
+    rw [hb]; simp
+  | cons c t ih =>
+    have hc : c ≠ sep := h c (by simp)
+    have := ih (fun y hy => h y (by simp [hy]))
+    simp only [List.cons_append, splitOnByte, List.foldr_cons] at this ⊢
+    rw [this]; simp [hc]
+
+theorem trimOWS_id (v : Bytes) (h : ∀ b ∈ v, b ≠ 32 ∧ b ≠ 9) : trimOWS v = v := by
+  have hd : ∀ l : Bytes, (∀ b ∈ l, b ≠ 32 ∧ b ≠ 9) → l.dropWhile (fun x => x = 32 || x = 9) = l := by
+    intro l hl
+    cases l with
+    | nil => rfl
+    | cons a t =>
+      have := hl a (by simp)
+      simp [List.dropWhile_cons, this.1, this.2]
+  unfold trimOWS
+  simp only
+  rw [hd v h, hd v.reverse (fun b hb => h b (by simpa using hb)), List.reverse_reverse]
+
+/-- a user header field that would change the framing -/
+def noFraming (hs : List (Bytes × Bytes)) : Prop :=
+  ∀ h ∈ hs, lower h.1 ≠ bytesOfString "content-length" ∧ lower h.1 ≠ bytesOfString "transfer-encoding"
+
+theorem headerValue_none (hs : List (Bytes × Bytes)) (name : String) (h : ∀ x ∈ hs, lower x.1 ≠ bytesOfString name) :
+    headerValue hs name = none := by
+  unfold headerValue
+  rw [List.find?_eq_none.mpr]
+  · rfl
+  · intro x hx; simpa using h x hx
+
+theorem headerValue_append (hs : List (Bytes × Bytes)) (x : Bytes × Bytes) (name : String)
+    (h : ∀ y ∈ hs, lower y.1 ≠ bytesOfString name) :
+    headerValue (hs ++ [x]) name = if lower x.1 == bytesOfString name then some x.2 else none := by
+  unfold headerValue
+  rw [List.find?_append, List.find?_eq_none.mpr (by intro y hy; simpa using h y hy)]
+  by_cases hx : lower x.1 == bytesOfString name <;> simp [hx]
+
+/-- what the dissector's reader must produce for a message the reference encoder wrote -/
+def parsedOf (m : Msg) : Message :=
+  { isRequest := m.isRequest, method := m.method, target := m.target, status := m.status, minor := m.minor,
+    headers := m.headers ++ (match m.framing with
+      | .cl => [(bytesOfString "Content-Length", dec m.body.length)]
+      | .chunked => [(bytesOfString "Transfer-Encoding", bytesOfString "chunked")]
+      | _ => []),
+    body := m.body }
+
+/-- well-formed request of the reference encoder -/
+structure WfReq (m : Msg) : Prop where
+  isReq : m.isRequest = true
+  method : noByte 32 m.method ∧ noByte 13 m.method
+  target : noByte 32 m.target ∧ noByte 13 m.target
+  minor : m.minor = 0 ∨ m.minor = 1
+  headers : ∀ h ∈ m.headers, wfHeader h
+  noFr : noFraming m.headers
+  framing : m.framing = .cl ∨ m.framing = .chunked ∨ (m.framing = .none ∧ m.body = [])
+  status : m.status = 0
+
+theorem encHeaders_snoc (hs : List (Bytes × Bytes)) (n v : Bytes) :
+    encHeaders (hs ++ [(n, v)]) = encHeaders hs ++ (n ++ bytesOfString ": " ++ v ++ crlf) := by
+  simp [encHeaders]
+
+theorem encHeaders_cons (h : Bytes × Bytes) (t : List (Bytes × Bytes)) :
+    encHeaders (h :: t) = h.1 ++ bytesOfString ": " ++ h.2 ++ crlf ++ encHeaders t := by
+  simp [encHeaders]
+
+theorem encHeaders_len : ∀ hs : List (Bytes × Bytes), hs.length ≤ (encHeaders hs).length
+  | [] => by simp [encHeaders]
+  | h :: t => by
+    have := encHeaders_len t
+    rw [encHeaders_cons]
+    simp only [List.length_append, List.length_cons, crlf, List.length_nil]; omega
+
+theorem chunks_len : ∀ (fuel : Nat) (b : Bytes), b.length < fuel → b.length ≤ (chunksOf fuel b).length
+  | 0, _, h => by omega
+  | fuel + 1, b, h => by
+    by_cases hb : b = []
+    · subst hb; simp
+    · have hne : b.isEmpty = false := by cases b <;> simp_all
+      have hpos : 0 < b.length := by cases b <;> simp_all
+      have ih := chunks_len fuel (b.drop (min 7 b.length)) (by simp only [List.length_drop]; omega)
+      simp only [chunksOf, hne, Bool.false_eq_true, if_false, List.length_append, List.length_take, List.length_drop] at ih ⊢
+      omega
+
+theorem cl_wf (n : Nat) : wfHeader (bytesOfString "Content-Length", dec n) := by
+  refine ⟨by show noByte 58 (bytesOfString "Content-Length"); unfold noByte; decide,
+          by show noByte 13 (bytesOfString "Content-Length"); unfold noByte; decide,
+          dec_noByte n 13 (Or.inl (by decide)), ?_⟩
+  exact trimOWS_id _ (fun b hb => ⟨dec_noByte n 32 (Or.inl (by decide)) b hb, dec_noByte n 9 (Or.inl (by decide)) b hb⟩)
+
+theorem te_wf : wfHeader (bytesOfString "Transfer-Encoding", bytesOfString "chunked") := by
+  refine ⟨by unfold noByte; decide, by unfold noByte; decide, by unfold noByte; decide, by decide⟩
+
+/-- **Requests round-trip**: a request written by the reference encoder - any method and target
+    without spaces, any header fields, a body of any bytes with a Content-Length or in chunks -
+    followed by anything, is read back as exactly that request, and reading resumes right after it. -/
+theorem c03_request_enc (m : Msg) (hw : WfReq m) (rest : Bytes) :
+    parseRequest (encMsg m ++ rest) = some (parsedOf m, rest) := by
+  obtain ⟨hreq, ⟨hm32, hm13⟩, ⟨ht32, ht13⟩, hminor, hhs, hnf, hfr, hst⟩ := hw
+  let ver := bytesOfString "HTTP/1." ++ dec m.minor
+  have hver : versionMinor? ver = some m.minor := by
+    rcases hminor with h | h <;> simp only [ver, h] <;> rfl
+  have hver32 : noByte 32 ver := by rcases hminor with h | h <;> simp only [ver, h] <;> unfold noByte <;> decide
+  have hver13 : noByte 13 ver := by rcases hminor with h | h <;> simp only [ver, h] <;> unfold noByte <;> decide
+  let line := m.method ++ 32 :: (m.target ++ 32 :: ver)
+  have hline13 : ∀ b ∈ line, b ≠ 13 := by
+    intro b hb
+    simp only [line, List.mem_append, List.mem_cons] at hb
+    rcases hb with hb | rfl | hb | rfl | hb
+    · exact hm13 b hb
+    · decide
+    · exact ht13 b hb
+    · decide
+    · exact hver13 b hb
+  have hsplit : splitOnByte 32 line = [m.method, m.target, ver] := by
+    simp only [line]
+    rw [splitOnByte_cons 32 _ _ hm32, splitOnByte_cons 32 _ _ ht32, splitOnByte_single 32 _ hver32]
+  -- the header block the encoder writes, framing field included
+  let allHs := (parsedOf m).headers
+  have hallwf : ∀ h ∈ allHs, wfHeader h := by
+    intro h hh
+    simp only [allHs, parsedOf, List.mem_append] at hh
+    rcases hh with hh | hh
+    · exact hhs h hh
+    · rcases hfr with hf | hf | ⟨hf, _⟩ <;> simp only [hf, List.mem_singleton, List.not_mem_nil] at hh
+      · subst hh; exact cl_wf _
+      · subst hh; exact te_wf
+  have hform : ∃ bodyBytes, encMsg m ++ rest = line ++ [13, 10] ++ (encHeaders allHs ++ crlf ++ (bodyBytes ++ rest)) ∧
+      parseBody (framingOf true 0 allHs) (bodyBytes ++ rest) = some (m.body, rest) := by
+    have hstart : (if m.isRequest then m.method ++ [32] ++ m.target ++ bytesOfString " HTTP/1." ++ dec m.minor
+        else bytesOfString "HTTP/1." ++ dec m.minor ++ [32] ++ dec m.status ++ [32] ++ m.reason) = line := by
+      simp [hreq, line, ver, bytesOfString, List.append_assoc]
+    have hte0 := headerValue_none m.headers "transfer-encoding" (fun x hx => (hnf x hx).2)
+    have hcl0 := headerValue_none m.headers "content-length" (fun x hx => (hnf x hx).1)
+    rcases hfr with hf | hf | ⟨hf, hbody⟩
+    · refine ⟨m.body, ?_, ?_⟩
+      · have hsplitStr : bytesOfString "Content-Length: " = bytesOfString "Content-Length" ++ bytesOfString ": " := by decide
+        simp only [encMsg, hstart, hf, allHs, parsedOf, encHeaders_snoc, hsplitStr]
+        simp [encHeaders, crlf, List.append_assoc]
+      · have hte : headerValue allHs "transfer-encoding" = none := by
+          simp only [allHs, parsedOf, hf]
+          rw [headerValue_append _ _ _ (fun x hx => (hnf x hx).2)]; rfl
+        have hcl : headerValue allHs "content-length" = some (dec m.body.length) := by
+          simp only [allHs, parsedOf, hf]
+          rw [headerValue_append _ _ _ (fun x hx => (hnf x hx).1)]; rfl
+        simp only [framingOf, Bool.not_true, Bool.false_and, Bool.false_eq_true, if_false, hte, hcl, Option.bind_some, decNat_dec]
+        exact body_by_length_exact m.body rest
+    · refine ⟨chunksOf (m.body.length + 1) m.body, ?_, ?_⟩
+      · have hsplitStr : bytesOfString "Transfer-Encoding: chunked" =
+            bytesOfString "Transfer-Encoding" ++ bytesOfString ": " ++ bytesOfString "chunked" := by decide
+        simp only [encMsg, hstart, hf, allHs, parsedOf, encHeaders_snoc, hsplitStr]
+        simp [encHeaders, crlf, List.append_assoc]
+      · have hte : headerValue allHs "transfer-encoding" = some (bytesOfString "chunked") := by
+          simp only [allHs, parsedOf, hf]
+          rw [headerValue_append _ _ _ (fun x hx => (hnf x hx).2)]; rfl
+        have hlow : (lower (bytesOfString "chunked") == bytesOfString "chunked") = true := by decide
+        simp only [framingOf, Bool.not_true, Bool.false_and, Bool.false_eq_true, if_false, hte, hlow, if_true, parseBody]
+        have hcl := chunks_len (m.body.length + 1) m.body (by omega)
+        exact parseChunks_enc _ m.body (by omega) rest _ (by simp only [List.length_append]; omega)
+    · refine ⟨[], ?_, ?_⟩
+      · simp only [encMsg, hstart, hf, allHs, parsedOf, List.append_nil]
+        simp [encHeaders, crlf, List.append_assoc]
+      · have hh : allHs = m.headers := by simp [allHs, parsedOf, hf]
+        simp only [hh, framingOf, Bool.not_true, Bool.false_and, Bool.false_eq_true, if_false, hte0, hcl0, Option.bind_none,
+          if_true, parseBody, List.nil_append, hbody]
+  obtain ⟨bodyBytes, hf1, hf2⟩ := hform
+  have htl := takeLine_exact line (encHeaders allHs ++ crlf ++ (bodyBytes ++ rest)) hline13
+  have hph := parseHeaders_enc allHs hallwf (bodyBytes ++ rest) ((encHeaders allHs ++ crlf ++ (bodyBytes ++ rest)).length + 1)
+    (by have := encHeaders_len allHs
+        simp only [List.length_append]; omega)
+  rw [hf1]
+  simp only [parseRequest, htl, hsplit, hver, hph, hf2, Option.map_some]
+  simp [parsedOf, hreq, hst, allHs]
+
+def noBodyStatus (st : Nat) : Bool := st / 100 == 1 || st == 204 || st == 304
+
+/-- well-formed response of the reference encoder; a close-delimited body ends the stream -/
+structure WfResp (m : Msg) (rest : Bytes) : Prop where
+  isResp : m.isRequest = false
+  reason : noByte 13 m.reason
+  minor : m.minor = 0 ∨ m.minor = 1
+  headers : ∀ h ∈ m.headers, wfHeader h
+  noFr : noFraming m.headers
+  framing : (noBodyStatus m.status = true ∧ m.framing = .none ∧ m.body = []) ∨
+            (noBodyStatus m.status = false ∧ (m.framing = .cl ∨ m.framing = .chunked ∨ (m.framing = .close ∧ rest = [])))
+  noReq : m.method = [] ∧ m.target = []
+
+/-- **Responses round-trip**: any status, reason phrase, header fields; a body of any bytes with a
+    Content-Length, in chunks, or delimited by the end of the stream; none for 1xx / 204 / 304. -/
+theorem c03_response_enc (m : Msg) (rest : Bytes) (hw : WfResp m rest) :
+    parseResponse (encMsg m ++ rest) = some (parsedOf m, if m.framing = .close then [] else rest) := by
+  obtain ⟨hresp, hr13, hminor, hhs, hnf, hfr, ⟨hmeth, htarg⟩⟩ := hw
+  let ver := bytesOfString "HTTP/1." ++ dec m.minor
+  have hver : versionMinor? ver = some m.minor := by
+    rcases hminor with h | h <;> simp only [ver, h] <;> rfl
+  have hver32 : noByte 32 ver := by rcases hminor with h | h <;> simp only [ver, h] <;> unfold noByte <;> decide
+  have hver13 : noByte 13 ver := by rcases hminor with h | h <;> simp only [ver, h] <;> unfold noByte <;> decide
+  let line := ver ++ 32 :: (dec m.status ++ 32 :: m.reason)
+  have hline13 : ∀ b ∈ line, b ≠ 13 := by
+    intro b hb
+    simp only [line, List.mem_append, List.mem_cons] at hb
+    rcases hb with hb | rfl | hb | rfl | hb
+    · exact hver13 b hb
+    · decide
+    · exact dec_noByte m.status 13 (Or.inl (by decide)) b hb
+    · decide
+    · exact hr13 b hb
+  have hsplit : ∃ more, splitOnByte 32 line = ver :: dec m.status :: more := by
+    simp only [line]
+    rw [splitOnByte_cons 32 _ _ hver32, splitOnByte_cons 32 _ _ (dec_noByte m.status 32 (Or.inl (by decide)))]
+    exact ⟨_, rfl⟩
+  obtain ⟨more, hsplit⟩ := hsplit
+  let allHs := (parsedOf m).headers
+  have hfrcases : m.framing = .cl ∨ m.framing = .chunked ∨ m.framing = .close ∨ m.framing = .none := by
+    rcases hfr with ⟨_, h, _⟩ | ⟨_, h | h | ⟨h, _⟩⟩ <;> simp [h]
+  have hallwf : ∀ h ∈ allHs, wfHeader h := by
+    intro h hh
+    simp only [allHs, parsedOf, List.mem_append] at hh
+    rcases hh with hh | hh
+    · exact hhs h hh
+    · rcases hfrcases with hf | hf | hf | hf <;> simp only [hf, List.mem_singleton, List.not_mem_nil] at hh
+      · subst hh; exact cl_wf _
+      · subst hh; exact te_wf
+  have hstart : (if m.isRequest then m.method ++ [32] ++ m.target ++ bytesOfString " HTTP/1." ++ dec m.minor
+      else bytesOfString "HTTP/1." ++ dec m.minor ++ [32] ++ dec m.status ++ [32] ++ m.reason) = line := by
+    simp [hresp, line, ver, List.append_assoc]
+  have hte0 := headerValue_none m.headers "transfer-encoding" (fun x hx => (hnf x hx).2)
+  have hcl0 := headerValue_none m.headers "content-length" (fun x hx => (hnf x hx).1)
+  have hform : ∃ bodyBytes, encMsg m ++ rest = line ++ [13, 10] ++ (encHeaders allHs ++ crlf ++ (bodyBytes ++ rest)) ∧
+      parseBody (framingOf false m.status allHs) (bodyBytes ++ rest) = some (m.body, if m.framing = .close then [] else rest) := by
+    rcases hfr with ⟨hnb, hf, hbody⟩ | ⟨hnb, hf | hf | ⟨hf, hrest⟩⟩
+    · refine ⟨[], ?_, ?_⟩
+      · simp only [encMsg, hstart, hf, allHs, parsedOf, List.append_nil]
+        simp [encHeaders, crlf, List.append_assoc]
+      · have hnb' : (m.status / 100 == 1 || m.status == 204 || m.status == 304) = true := hnb
+        simp [framingOf, hnb', parseBody, hbody, hf]
+    · refine ⟨m.body, ?_, ?_⟩
+      · have hsplitStr : bytesOfString "Content-Length: " = bytesOfString "Content-Length" ++ bytesOfString ": " := by decide
+        simp only [encMsg, hstart, hf, allHs, parsedOf, encHeaders_snoc, hsplitStr]
+        simp [encHeaders, crlf, List.append_assoc]
+      · have hte : headerValue allHs "transfer-encoding" = none := by
+          simp only [allHs, parsedOf, hf]
+          rw [headerValue_append _ _ _ (fun x hx => (hnf x hx).2)]; rfl
+        have hcl : headerValue allHs "content-length" = some (dec m.body.length) := by
+          simp only [allHs, parsedOf, hf]
+          rw [headerValue_append _ _ _ (fun x hx => (hnf x hx).1)]; rfl
+        have hnb' : (m.status / 100 == 1 || m.status == 204 || m.status == 304) = false := hnb
+        simp only [framingOf, Bool.not_false, Bool.true_and, hnb', Bool.false_eq_true, if_false, hte, hcl, Option.bind_some, decNat_dec, hf]
+        simpa using body_by_length_exact m.body rest
+    · refine ⟨chunksOf (m.body.length + 1) m.body, ?_, ?_⟩
+      · have hsplitStr : bytesOfString "Transfer-Encoding: chunked" =
+            bytesOfString "Transfer-Encoding" ++ bytesOfString ": " ++ bytesOfString "chunked" := by decide
+        simp only [encMsg, hstart, hf, allHs, parsedOf, encHeaders_snoc, hsplitStr]
+        simp [encHeaders, crlf, List.append_assoc]
+      · have hte : headerValue allHs "transfer-encoding" = some (bytesOfString "chunked") := by
+          simp only [allHs, parsedOf, hf]
+          rw [headerValue_append _ _ _ (fun x hx => (hnf x hx).2)]; rfl
+        have hlow : (lower (bytesOfString "chunked") == bytesOfString "chunked") = true := by decide
+        have hnb' : (m.status / 100 == 1 || m.status == 204 || m.status == 304) = false := hnb
+        have hcl := chunks_len (m.body.length + 1) m.body (by omega)
+        simp only [framingOf, Bool.not_false, Bool.true_and, hnb', Bool.false_eq_true, if_false, hte, hlow, if_true, parseBody, hf]
+        have := parseChunks_enc (m.body.length + 1) m.body (by omega) rest
+          ((chunksOf (m.body.length + 1) m.body ++ rest).length + 1) (by simp only [List.length_append]; omega)
+        simpa using this
+    · refine ⟨m.body, ?_, ?_⟩
+      · simp only [encMsg, hstart, hf, allHs, parsedOf, List.append_nil]
+        simp [encHeaders, crlf, List.append_assoc]
+      · have hh : allHs = m.headers := by simp [allHs, parsedOf, hf]
+        have hnb' : (m.status / 100 == 1 || m.status == 204 || m.status == 304) = false := hnb
+        simp [hh, framingOf, hnb', hte0, hcl0, parseBody, hf, hrest]
+  obtain ⟨bodyBytes, hf1, hf2⟩ := hform
+  have htl := takeLine_exact line (encHeaders allHs ++ crlf ++ (bodyBytes ++ rest)) hline13
+  have hph := parseHeaders_enc allHs hallwf (bodyBytes ++ rest) ((encHeaders allHs ++ crlf ++ (bodyBytes ++ rest)).length + 1)
+    (by have := encHeaders_len allHs
+        simp only [List.length_append]; omega)
+  rw [hf1]
+  simp only [parseResponse, htl, hsplit, hver, decNat_dec, hph, hf2, Option.map_some]
+  simp [parsedOf, hresp, hmeth, htarg, allHs]
+
+/-- Non-vacuity: a chunked POST with a binary body and two header fields is well-formed. -/
+theorem encMsg_ne_nil (m : Msg) : (encMsg m).isEmpty = false := by
+  unfold encMsg
+  cases hf : m.framing <;> simp [crlf]
+
+/-- **A whole client half**: every pipelined sequence of well-formed requests is read back as
+    exactly those requests, in order - the k-th request parsed is the k-th request sent. -/
+theorem c03_client_half : ∀ (ms : List Msg), (∀ m ∈ ms, WfReq m) → ∀ fuel, ms.length < fuel →
+    parseAll true fuel ((ms.map encMsg).flatten) = ms.map parsedOf
+  | [], _, fuel, hf => by
+    cases fuel with
+    | zero => omega
+    | succ f => simp [parseAll]
+  | m :: ms, hw, fuel, hf => by
+    cases fuel with
+    | zero => omega
+    | succ f =>
+      have h1 := c03_request_enc m (hw m (by simp)) ((ms.map encMsg).flatten)
+      have ih := c03_client_half ms (fun x hx => hw x (by simp [hx])) f (by simp only [List.length_cons] at hf; omega)
+      have hne : ((encMsg m) ++ (ms.map encMsg).flatten).isEmpty = false := by
+        have := encMsg_ne_nil m
+        cases h : encMsg m <;> simp_all
+      simp only [List.map_cons, List.flatten_cons, parseAll, hne, Bool.false_eq_true, if_false, if_true, h1, ih]
+
+def exReq : Msg :=
+  { isRequest := true, method := bytesOfString "POST", target := bytesOfString "/a?b=1", minor := 1,
+    headers := [(bytesOfString "Host", bytesOfString "h"), (bytesOfString "X-Q", bytesOfString "a b")],
+    framing := .chunked, body := [0, 13, 10, 255, 1, 2, 3, 4, 5] }
+
+example : WfReq exReq := by
+  refine ⟨rfl, ⟨by unfold noByte; decide, by unfold noByte; decide⟩, ⟨by unfold noByte; decide, by unfold noByte; decide⟩,
+    Or.inr rfl, ?_, ?_, Or.inr (Or.inl rfl), rfl⟩
+  · intro h hh
+    have : h = (bytesOfString "Host", bytesOfString "h") ∨ h = (bytesOfString "X-Q", bytesOfString "a b") := by
+      simpa [exReq] using hh
+    rcases this with rfl | rfl <;> exact ⟨by unfold noByte; decide, by unfold noByte; decide, by unfold noByte; decide, by decide⟩
+  · intro h hh
+    have : h = (bytesOfString "Host", bytesOfString "h") ∨ h = (bytesOfString "X-Q", bytesOfString "a b") := by
+      simpa [exReq] using hh
+    rcases this with rfl | rfl <;> exact ⟨by decide, by decide⟩
 
 end KsVerif.Proofs.C03
